@@ -194,7 +194,15 @@ func runC04(r *Run) {
 			r.Violation("c04-mint", "the address recorded in the token is not the client address of the issuing request", fmt.Sprintf("issuing %s\nclient address at issuance %q, token records %q\n", p.a, p.addrA, t.RemoteAddr))
 		}
 	}
+	var plines []string
 	for _, p := range pairs {
+		plines = append(plines, fmt.Sprintf("clientaddr xff=%s peer=%s", hx([]byte(p.a.firstXFF())), hx([]byte(p.a.peer))))
+		plines = append(plines, fmt.Sprintf("clientaddr xff=%s peer=%s", hx([]byte(p.b.firstXFF())), hx([]byte(p.b.peer))))
+	}
+	pans := r.Oracle(plines)
+	for pi, p := range pairs {
+		// the client addresses by the property's rule (the model), not by the code under test
+		ruleA, ruleB := string(unhx(pans[2*pi])), string(unhx(pans[2*pi+1]))
 		key := ""
 		if p.a.String() != p.b.String() {
 			key = fmt.Sprintf("%v|%s|%s", p.verify, p.a, p.b)
@@ -204,8 +212,8 @@ func runC04(r *Run) {
 			r.Violation("c04-chain", "the token chain failed for a freshly minted token: "+p.note, fmt.Sprintf("issue %s\npresent %s\n", p.a, p.b))
 			continue
 		}
-		want := !p.verify || p.addrA == p.addrB
-		rep := fmt.Sprintf("verifyclientip=%v\nissued to   %s -> client address %q\npresented by %s -> client address %q\nchannel allowed: %v\n", p.verify, p.a, p.addrA, p.b, p.addrB, p.okImpl)
+		want := !p.verify || ruleA == ruleB
+		rep := fmt.Sprintf("verifyclientip=%v\nissued to   %s -> client address %q (gateway derived %q)\npresented by %s -> client address %q (gateway derived %q)\nchannel allowed: %v\n", p.verify, p.a, ruleA, p.addrA, p.b, ruleB, p.addrB, p.okImpl)
 		if p.okImpl && !want {
 			r.Violation("c04-bound", "a token issued to one client address is accepted from another although verification is on", rep)
 		} else if !p.okImpl && want {
@@ -218,7 +226,7 @@ func runC04(r *Run) {
 				}
 			}
 		}
-		r.Dist(fmt.Sprintf("verify=%v same=%v", p.verify, p.addrA == p.addrB))
+		r.Dist(fmt.Sprintf("verify=%v same=%v", p.verify, ruleA == ruleB))
 	}
 
 	// 3. whole tunnels over both transports from address A (issue) and B (use, via X-Forwarded-For)
